@@ -198,7 +198,12 @@ def run_program(prog, extra_formatters=None, reporters=None, config_hook=None, w
             from behave.api.async_step import async_run_until_complete
             sync_impl = impl
 
-            @async_run_until_complete
+            # the three documented ways to apply the decorator: bare, called without arguments, called with a timeout
+            form = ("bare", "called", "timeout")[(KINDS.index(kind) + len(cfg.get("hooks", ()))) % 3]
+            decorate = {"bare": async_run_until_complete, "called": async_run_until_complete(),
+                        "timeout": async_run_until_complete(timeout=30)}[form]
+
+            @decorate
             async def async_impl(context, n, noise_text=None):
                 import asyncio
                 await asyncio.sleep(0)
@@ -221,6 +226,28 @@ def run_program(prog, extra_formatters=None, reporters=None, config_hook=None, w
             return name.split()[-1]
         return name
 
+    def exclude_tagged(feature, xt):
+        from behave.model import Rule, ScenarioOutline
+
+        def consider(el):
+            if xt in el.tags:
+                log.append(["excluded", key_of(el)])
+                el.skip()
+                return True
+            return False
+
+        def walk(items):
+            for it in items:
+                if consider(it):
+                    continue            # (an excluded outline is not asked for its rows)
+                if isinstance(it, Rule):
+                    walk(it.run_items)
+                elif isinstance(it, ScenarioOutline):
+                    for row in it.scenarios:
+                        consider(row)
+        if not consider(feature):
+            walk(feature.run_items)
+
     def mk_hook(hname):
         def hook(context, *args):
             key = key_of(args[0] if args else None)
@@ -229,6 +256,10 @@ def run_program(prog, extra_formatters=None, reporters=None, config_hook=None, w
             if hname == "before_scenario" and cfg.get("continue_via_hook") and cfg.get("continue_after_failed"):
                 # the documented recipe: switch the flag on for this scenario from its before_scenario hook
                 args[0].continue_after_failed_step = True
+            if hname == "before_feature" and cfg.get("exclude_tag"):
+                # the documented way to exclude elements at run time (what ActiveTagMatcher users write in their hooks):
+                # element.skip() on everything that carries the tag, decided when the feature starts
+                exclude_tagged(args[0], cfg["exclude_tag"])
             for (h2, k2, cid, craises) in hook_cleanups:
                 if h2 == hname and str(k2) == key:
                     context.add_cleanup(mk_cleanup(cid, craises))
